@@ -1,7 +1,7 @@
 import PqVerif.Driver.All
 open Pq.Driver
 
-def handlers : List Handler := [combHandler, exprHandler, engineHandler]
+def handlers : List Handler := [combHandler, exprHandler, engineHandler, programHandler]
 
 def step (line : String) : String :=
   let toks := (line.trimAscii.toString.splitOn " ").filter (· ≠ "")
